@@ -1,6 +1,6 @@
 (* C12 — a crash during a disk-cache write never corrupts what later runs read. *)
 From Coq Require Import List Arith Bool String.
-From Connectome Require Import MiscGen Crash CrashFacts.
+From Connectome Require Import DiskGen Crash CrashFacts.
 Import ListNotations. Local Open Scope list_scope.
 
 (* For every assignment V of blob lists to entries and every dependency table D: start on any store whose index files
